@@ -11,6 +11,7 @@
 import RbModel.Lemmas.Gpos
 import RbModel.Lemmas.GposMark
 import RbModel.Lemmas.Kerx
+import RbModel.Lemmas.GposDevice
 import RbModel.Gen.Gpos
 
 namespace RbModel.Gpos
@@ -228,6 +229,25 @@ theorem C07_value_frame {v : ValueRecord} {d : Dir} {p q : Array Pos} {idx : Nat
   · simp only [Except.ok.injEq, Prod.mk.injEq] at h
     obtain ⟨rfl, _⟩ := h
     exact ⟨by simp, fun k hk => put_get?_ne _ _ (Ne.symm hk)⟩
+
+/-- The same with the record's device / variation tables: each delta is added to exactly its own field — placements
+    whenever the face state enables that axis' devices (`useX` / `useY`: a ppem on that axis or variation coordinates),
+    the X advance delta only in horizontal runs, the Y advance delta (subtracted) only in vertical runs; attachment
+    fields untouched.  The deltas themselves are the font's (external data). -/
+theorem C07_value_exact_device (v : ValueRecordD) (useX useY : Bool) (d : Dir) (q : Pos) :
+    let r := (valueApplyToPosD v useX useY d q).1
+    r.xo = q.xo + v.xPlacement + devDelta useX v.xPlaDevice ∧
+    r.yo = q.yo + v.yPlacement + devDelta useY v.yPlaDevice ∧
+    r.xa = (if d.isHorizontal then q.xa + v.xAdvance + devDelta useX v.xAdvDevice else q.xa) ∧
+    r.ya = (if d.isHorizontal then q.ya else q.ya - v.yAdvance - devDelta useY v.yAdvDevice) ∧
+    r.chain = q.chain ∧ r.atype = q.atype := by
+  simp [valueApplyToPosD_exact]
+
+/-- without device tables (or with the face in its default state) this is the plain record -/
+theorem C07_value_device_off (v : ValueRecordD) (d : Dir) (q : Pos) :
+    (valueApplyToPosD v false false d q).1 = (valueApplyToPos v.toValueRecord d q).1 := by
+  rw [valueApplyToPosD_exact, valueApplyToPos_exact]
+  simp [devDelta]
 
 /-! ## recursion depth (C01; D13 fixed: `nesting_level` budget) -/
 
